@@ -387,8 +387,8 @@ func (w *Writer) flushBlock() error {
 		// Store the bloom filter for this block
 		w.bloomFilters = append(w.bloomFilters, w.currentBloomFilter)
 
-		// Create a new bloom filter for the next block
-		w.currentBloomFilter = NewBlockBloomFilterBuilder(w.dataOffset, DefaultWriterOptions().ExpectedEntriesPerBlock)
+		// Create a new bloom filter for the next block, which starts where this one ends
+		w.currentBloomFilter = NewBlockBloomFilterBuilder(w.dataOffset+uint64(n), DefaultWriterOptions().ExpectedEntriesPerBlock)
 	}
 
 	// Update offset for next block
